@@ -1,6 +1,7 @@
 import Rare.Base.Proto
 import Rare.Model.C16
 import Rare.Model.C16Cmd
+import Rare.Model.C16Ctx
 namespace Rare.Drv.C16
 open Rare Rare.C16 Rare.Proto
 
@@ -16,6 +17,19 @@ def parseNT (s : String) : Option (List (Bytes × Int)) :=
 
 def parseInts (s : String) : Option (List Int) :=
   if s = "." then some [] else (s.splitOn ",").mapM (·.toInt?)
+
+/-- `<hex source>/<line number>/<indices>/<hex line>` items joined by `+`; `.` = none -/
+def parseHist (s : String) : Option (List Hit) :=
+  if s = "." then some []
+  else (s.splitOn "+").mapM fun it =>
+    match it.splitOn "/" with
+    | [src, num, ix, ln] => do
+      let source ← Hex.dec src
+      let lineNum ← num.toNat?
+      let indices ← parseInts ix
+      let line ← Hex.dec ln
+      pure { source, lineNum, indices, line }
+    | _ => none
 
 def tag : JVal → Bytes
   | .str s => 0x73 :: s
@@ -69,7 +83,9 @@ def sameAll (rs : List (Except String Bytes)) : String :=
     `sfr <bytes>` – `smartFormatResult` / `arr <list>` – `MakeArray` and the split at the separator /
     `xout <flags> <key> <data> <kvs>` – what `rare expression [-r] [-n] -d … -k … '{key}'` prints /
     `keyeq <key> <name table> <indices 1> <line 1> <indices 2> <line 2>` – do two matches get the same text?
-      answered from the SPEC (`sameShown`), not by rendering -/
+      answered from the SPEC (`sameShown`), not by rendering /
+    `hist <keys> <name table> <seq>` – one worker's context over a history of lines, expression `{k1}|{k2}|…`:
+      answered by the context-free `extractOf` of every line, for three iteration orders of the name table -/
 def handle : List String → String
   | ["json", n, u, nt, ix, ln] =>
     match parseNT nt, parseInts ix, Hex.dec ln with
@@ -186,6 +202,22 @@ def handle : List String → String
           s!"ok eq={if sameShown named numbered order i1 l1 i2 l2 then 1 else 0} c={c}"
         | _, _ => "panic"
     | _, _, _, _, _, _ => "bad-args"
+  | ["hist", ks, nt, sq] =>
+    match decHexList ks, parseNT nt, parseHist sq with
+    | some keys, some order, some hs =>
+      if keys.isEmpty then "bad-args"
+      else
+        let one := fun (o : List (Bytes × Int)) => hs.mapM fun h => (extractOf keys o h).map fun r => (h, r)
+        match (orders order).mapM one with
+        | .error _ => "panic"
+        | .ok [] => "bad-args"
+        | .ok (a :: rest) =>
+          let shown := fun (l : List (Hit × Option Bytes)) => l.filterMap fun p =>
+            p.2.map fun k => s!"{Hex.enc p.1.source}/{p.1.lineNum}/{Hex.enc k}"
+          if rest.all (fun b => shown b == shown a) then
+            (if (shown a).isEmpty then "ok ." else "ok " ++ "+".intercalate (shown a))
+          else "nondeterministic"
+    | _, _, _ => "bad-args"
   | _ => "bad-op"
 
 end Rare.Drv.C16
